@@ -127,6 +127,8 @@ type Engine struct {
 	assumptions map[string]bool
 	pathQueries int
 	initHost    map[string]interface{}
+	bind        map[*smt.Term]*smt.Term
+	substMemo   map[*smt.Term]*smt.Term
 	usedParams  map[string]int
 	oblig       map[string][2]int64
 	lastObligations map[string][2]int64
@@ -291,12 +293,59 @@ func (e *Engine) addPC(t *smt.Term) {
 		return
 	}
 	e.pc = append(e.pc, t)
+	e.learn(t)
+}
+
+// learn records var = const facts implied by a new path-condition conjunct.
+func (e *Engine) learn(t *smt.Term) {
+	switch t.Op {
+	case smt.OAnd:
+		for _, a := range t.Args {
+			e.learn(a)
+		}
+	case smt.OVar:
+		e.bindVar(t, e.ctx.True)
+	case smt.ONot:
+		if t.Args[0].Op == smt.OVar {
+			e.bindVar(t.Args[0], e.ctx.False)
+		}
+	case smt.OEq:
+		a, b := t.Args[0], t.Args[1]
+		if a.Op == smt.OVar && b.IsConst() {
+			e.bindVar(a, b)
+		} else if b.Op == smt.OVar && a.IsConst() {
+			e.bindVar(b, a)
+		}
+	}
+}
+
+func (e *Engine) bindVar(v, c *smt.Term) {
+	if _, ok := e.bind[v]; ok {
+		return
+	}
+	e.bind[v] = c
+	e.substMemo = map[*smt.Term]*smt.Term{}
+}
+
+// simp applies the facts learnt on this path to a term.
+func (e *Engine) simp(t *smt.Term) *smt.Term {
+	if len(e.bind) == 0 || t.IsConst() {
+		return t
+	}
+	return e.ctx.Subst(t, e.bind, e.substMemo)
 }
 
 // choose picks one of the mutually exclusive alternatives; the others that are feasible
 // are queued as new work. exhaustive means the alternatives cover all cases, so the last
 // undecided one needs no query when all others are infeasible.
 func (e *Engine) choose(alts []*smt.Term, exhaustive bool) int {
+	if len(e.bind) > 0 {
+		na := make([]*smt.Term, len(alts))
+		for i, a := range alts {
+			na[i] = e.simp(a)
+		}
+		alts = na
+	}
 	// constant fast path: no decision recorded
 	for i, a := range alts {
 		if a.IsTrue() {
@@ -511,6 +560,8 @@ func (e *Engine) RunPath(fn *ssa.Function, prefix []int) (res PathResult) {
 		e.hostState[k] = v
 	}
 	e.oblig = map[string][2]int64{}
+	e.bind = map[*smt.Term]*smt.Term{}
+	e.substMemo = map[*smt.Term]*smt.Term{}
 	e.pathQueries = 0
 	e.solver.Push()
 	defer func() {
